@@ -508,6 +508,33 @@ func ruleSort(c *Ctx) []*Ob {
 			}, nil)
 			why := "ensureSorted on the same stack precedes the read on every path"
 			if !ok2 {
+				// a helper that reads one segment of a stack it is handed (loop body extracted): the obligation
+				// moves to its call sites - every one of them must be preceded by ensureSorted on the argument
+				if pi := paramIndexOf(f, stack); pi >= 0 && !isExportedRoot(f) && f.Parent() == nil {
+					sites := c.Callers(f)
+					all := len(sites) > 0
+					for _, cs := range sites {
+						cc := cs.Instr.Common()
+						if cc.StaticCallee() != f || pi >= len(cc.Args) {
+							all = false
+							continue
+						}
+						arg := cc.Args[pi]
+						caller := cs.Instr.Parent()
+						if !mustPrecede(caller, cs.Instr, func(j ssa.Instruction) bool {
+							k, isC := j.(*ssa.Call)
+							return isC && k.Call.StaticCallee() == ensure && sameValue(k.Call.Args[0], arg)
+						}, nil) {
+							all = false
+						}
+					}
+					if all {
+						ok2 = true
+						why = "the helper reads a segment of the stack it is handed; every call site is preceded by ensureSorted on that stack"
+					}
+				}
+			}
+			if !ok2 {
 				why = "a segment of the stack is searched without a preceding ensureSorted: with DeferredSort the binary search runs over unsorted keys (and races with the sorter)"
 			}
 			o.add(fn, "Segment."+m+" on "+accessPath(stack)+".a[i]", c.instrPos(call), ok2, why)
@@ -860,4 +887,16 @@ func ruleSort2(c *Ctx) []*Ob {
 		}
 	}
 	return o.list
+}
+
+// paramIndexOf: v is (a copy of) parameter #k of f; -1 otherwise.
+func paramIndexOf(f *ssa.Function, v ssa.Value) int {
+	for _, og := range origins(v) {
+		for k, p := range f.Params {
+			if og == ssa.Value(p) {
+				return k
+			}
+		}
+	}
+	return -1
 }
